@@ -162,6 +162,18 @@ def make_spec(rng, quick):
     profile = rng.choice(["water", "water", "gas", "heat"])
     spec = gen.gen_net(rng, profile, size=None if profile == "heat" else rng.randint(3, 7 if quick else 12))
     spec = c17_gen.augment(spec, rng, geodata=False)
+    # parallel twins of existing pipes, created later (so later in the table), same or reversed direction
+    pipes = [kw for fn, kw in spec["ops"] if fn == "create_pipe_from_parameters"]
+    used = {kw["index"] for kw in pipes}
+    for kw in rng.sample(pipes, min(len(pipes), rng.choice([0, 1, 1, 2]))):
+        tw = copy.deepcopy(kw)
+        tw["index"] = next(x for x in range(max(used) + 1, max(used) + 50) if x not in used) if rng.random() < 0.5 else \
+            next(x for x in range(0, max(used) + 50) if x not in used)
+        used.add(tw["index"])
+        tw.pop("geodata", None)
+        if rng.random() < 0.5:
+            tw["from_junction"], tw["to_junction"] = tw["to_junction"], tw["from_junction"]
+        spec["ops"].append(["create_pipe_from_parameters", tw])
     # dyadic pipe lengths: every float sum networkx forms is exact
     for fn, kw in spec["ops"]:
         if fn == "create_pipe_from_parameters":
@@ -217,6 +229,25 @@ class Runner:
         self.cases = []
         self.ignored = ignored_keywords()
 
+    def pure(self, net, fn, call, replay):
+        """run a topology query; the user tables must be bit-identical afterwards (a query never modifies the net)"""
+        before = drive.snapshot_tables(net)
+        try:
+            return call()
+        finally:
+            after = drive.snapshot_tables(net)
+            if after != before:
+                t = next(k for k in sorted(set(before) | set(after)) if before.get(k) != after.get(k))
+                cols = before[t]["columns"]
+                col = "?"
+                for ra, rb in zip(before[t]["values"], after[t]["values"]):
+                    d = [c for c, x, y in zip(cols, ra, rb) if x != y]
+                    if d:
+                        col = d[0]
+                        break
+                self.ctx.violation({"fn": fn, "kind": "mutates_net", "table": t, "column": col},
+                                   "%s changed the user table net.%s (column %s)" % (fn, t, col), replay)
+
     # ---- one graph case
     def graph_case(self, spec, kw, with_unsupplied=True):
         import pandapipes.topology as top
@@ -225,7 +256,7 @@ class Runner:
         nr = net_rows(net)
         replay = {"spec": spec, "kwargs": kw, "kind": "graph"}
         try:
-            mg = top.create_nxgraph(net, **copy.deepcopy(kw))
+            mg = self.pure(net, "create_nxgraph", lambda: top.create_nxgraph(net, **copy.deepcopy(kw)), replay)
         except Exception as e:  # noqa: BLE001
             ctx.count("create_nxgraph_raised_" + type(e).__name__)
             self.cases.append({"net": nr, "kw": kw, "ignored": self.ignored, "raised": True, "edges": [], "nodes": [],
@@ -236,7 +267,7 @@ class Runner:
         es, nodes, comps = graph_obs(mg)
         uns = None
         if with_unsupplied:
-            uns = sorted(int(x) for x in top.unsupplied_junctions(net, mg=mg))
+            uns = sorted(int(x) for x in self.pure(net, "unsupplied_junctions", lambda: top.unsupplied_junctions(net, mg=mg), replay))
         case = {"net": nr, "kw": kw, "ignored": self.ignored, "edges": es, "nodes": nodes, "comps": comps,
                 "unsupplied": uns, "dsrc": [], "dist": [], "replay": replay}
         self.cases.append(case)
@@ -339,11 +370,12 @@ class Runner:
         es, nodes, comps = graph_obs(mg)
         try:
             if which == "single":
-                d = top.calc_distance_to_junction(net, srcs[0], **args)
+                d = self.pure(net, "calc_distance_to_junction", lambda: top.calc_distance_to_junction(net, srcs[0], **args), replay)
             elif which == "minimum":
-                d = top.calc_minimum_distance_to_junctions(net, list(srcs), **args)
+                d = self.pure(net, "calc_minimum_distance_to_junctions",
+                              lambda: top.calc_minimum_distance_to_junctions(net, list(srcs), **args), replay)
             else:
-                d = top.calc_distance_to_junctions(net, list(srcs), **args)
+                d = self.pure(net, "calc_distance_to_junctions", lambda: top.calc_distance_to_junctions(net, list(srcs), **args), replay)
         except Exception as e:  # noqa: BLE001
             # the graph exists but the search fails: a source junction is not a node of the graph
             ctx.count("distance_search_raised_" + type(e).__name__)
@@ -351,6 +383,14 @@ class Runner:
                                "unsupplied": None, "dsrc": [], "dist": [], "replay": replay})
             self.monitor_exception(nr, kw, e, replay, fn="calc_distance:" + which)
             return
+        ghost = sorted(int(v) for v in d.index if int(v) not in set(nodes))
+        if ghost:
+            oos = {l for l, ins in nr["junctions"] if not ins}
+            sig = {"fn": "create_nxgraph", "kind": "ghost_nodes"}
+            if kw.get("notravjunctions") and set(ghost) <= oos:
+                sig["cause"] = "notrav_next_to_out_of_service"
+            ctx.violation(sig, "distance function %s(%s, %s) returns distances to %s, which are not nodes of the graph "
+                          "(out of service / nogo)" % (which, srcs, args, ghost), replay)
         dist = []
         for v, x in d.items():
             xs = float(x) * SCALE
@@ -379,7 +419,8 @@ class Runner:
         nan = {int(l) for l, x in zip(p.index.tolist(), p.values) if np.isnan(x)}
         oos = {l for l, s in nr["junctions"] if not s}
         try:
-            graph = {int(x) for x in top.unsupplied_junctions(net)} | oos
+            graph = {int(x) for x in self.pure(net, "unsupplied_junctions", lambda: top.unsupplied_junctions(net),
+                                               {"spec": spec, "kind": "solver"})} | oos
         except Exception as e:  # noqa: BLE001
             self.monitor_exception(nr, {}, e, {"spec": spec, "kind": "solver"}, fn="unsupplied_junctions")
             return
